@@ -170,8 +170,8 @@ def msgspec_attrs_unstructure_factory(
         resolve_types(type)
         attribs = fields(origin or type)
 
-    if msgspec_skips_private and any(
-        attr.name.startswith("_")
+    if any(
+        (msgspec_skips_private and attr.name.startswith("_"))
         or (
             converter.get_unstructure_hook(attr.type, cache_result=False)
             not in (identity, to_builtins)
